@@ -29,6 +29,7 @@ from __future__ import annotations
 import contextlib
 import os
 import tempfile
+import time
 from typing import Any
 
 from hypothesis import strategies as st
@@ -68,7 +69,7 @@ META = {
                   "snapshot and operation log of vf/gen/values.py.",
 }
 PLAN = {
-    "quick": {"shards": 16, "examples": 160, "max_stmts": 12, "max_funcs": 2, "shrink_sigs": 2, "shrink_seconds": 20,
+    "quick": {"shards": 16, "examples": 128, "max_stmts": 12, "max_funcs": 2, "shrink_sigs": 2, "shrink_seconds": 20,
               "shrink_calls": 60},
     "thorough": {"shards": 16, "examples": 12000, "timeout": 3300, "max_stmts": 25, "max_funcs": 3, "shrink_sigs": 4,
                  "shrink_seconds": 120, "shrink_calls": 600},
@@ -228,11 +229,16 @@ def _scratch() -> str:
 def evaluate(case: dict[str, Any]) -> Outcome:
     out = Outcome()
     H.preload()
-    known = sorted(_active_known())
+    # replay files of known findings carry "no_exclusions": the excluded shape itself has to be executed there
+    known = [] if case.get("no_exclusions") else sorted(_active_known())
     subsets = case.get("subsets") or H.SUBSETS
     scratch = _scratch()
     progress = os.path.join(scratch, f"c01_progress_{os.getpid()}")
-    kind, val = forked(lambda: H.run_case(case, subsets, scratch, known, progress), H.CHILD_TIMEOUT)
+    limit = _time_limit()
+    started = time.time()
+    kind, val = forked(lambda: H.run_case(case, subsets, scratch, known, progress), limit)
+    if kind == "ok":
+        _CASE_TIMES.append(time.time() - started)
     results: list[dict[str, Any]] = []
     crashes: list[list[Any]] = []
     if kind == "ok":
@@ -240,7 +246,7 @@ def evaluate(case: dict[str, Any]) -> Outcome:
     elif kind in ("signal", "timeout", "exit"):
         # attribute the crash / hang: one forked child per metric subset ("re-run solo", DESIGN section 2.5)
         for subset in subsets:
-            k2, v2 = forked(lambda s=subset: H.run_case(case, [s], scratch, known, progress), H.CHILD_TIMEOUT)
+            k2, v2 = forked(lambda s=subset: H.run_case(case, [s], scratch, known, progress), limit)
             name = H.subset_name(subset)
             step = _read_progress(progress)
             if k2 == "ok":
@@ -250,7 +256,7 @@ def evaluate(case: dict[str, Any]) -> Outcome:
                                 f"child killed by signal {v2} under metrics {name} during step {step!r}\n{H.describe_case(case)}"])
             elif k2 == "timeout":
                 crashes.append([subset, "nontermination-suspected", H.crash_where(case, step),
-                                f"step {step!r} under metrics {name} exceeded {H.CHILD_TIMEOUT} s twice\n{H.describe_case(case)}"])
+                                f"step {step!r} under metrics {name} exceeded {limit:.0f} s twice (limit = max(180 s, 200 x median case time))\n{H.describe_case(case)}"])
             elif k2 == "exit":
                 out.inconclusive = f"child-exit-{v2}"
             else:
@@ -276,6 +282,17 @@ def evaluate(case: dict[str, Any]) -> Outcome:
     out.key = [case["kind"], case.get("module") or case.get("func"), case["calls"]]
     out.sample = {"program": H.describe_case(case)[:1500], "calls": case["calls"][:2]}
     return out
+
+
+_CASE_TIMES: list[float] = []
+
+
+def _time_limit() -> float:
+    """Hang rule of DESIGN section 2.5: max(180 s, 200 x median wall time of the cases of this shard so far)."""
+    if not _CASE_TIMES:
+        return 900.0
+    ordered = sorted(_CASE_TIMES)
+    return max(180.0, 200.0 * ordered[len(ordered) // 2])
 
 
 def _read_progress(path: str) -> str:
